@@ -104,6 +104,21 @@ MALFORMED = {
     "random_displacements": ["many"],
 }
 
+# option <-> tag equivalences that doc/command-options.md does not list (hand-written from the option help texts
+# and doc/setting-tags.md; independent of the generated table): (flag, conf key, value for flag options or None)
+EXTRA_EQUIV = [
+    ("--mass", "mass", None), ("--pm", "pm", ".TRUE."), ("--nodiag", "diag", ".FALSE."), ("--random-seed", "random_seed", None),
+    ("--fc-format", "fc_format", None), ("--amax", "displacement_distance_max", None), ("--bi", "band_indices", None),
+    ("--classical", "classical", ".TRUE."), ("--dm-decimals", "dm_decimals", None), ("--fc-decimals", "fc_decimals", None),
+    ("--hdf5-compression", "hdf5_compression", None), ("--band-const-interval", "band_const_interval", ".TRUE."),
+    ("--trigonal", "trigonal", ".TRUE."), ("--mlp-params", "mlp_params", None), ("--sp", "save_params", ".TRUE."),
+    ("--pypolymlp", "use_pypolymlp", ".TRUE."), ("-f", "create_force_sets", None), ("--fz", "create_force_sets_zero", None),
+    ("--fc", "create_force_constants", None), ("--fc-spg-symmetry", "fc_spg_symmetry", ".TRUE."), ("--pt", "ptprop", ".TRUE."),
+    ("--legacy-plot", "legacy_plot", ".TRUE."), ("--cutoff-radius", "cutoff_radius", None),
+    ("--temperature", "random_displacement_temperature", None), ("--exclude-born", "include_nac_params", ".FALSE."),
+    ("--sscha", "sscha_iterations", None), ("--no-fc-symmetry", "fc_symmetry", ".FALSE."), ("--nonac", "nac", ".FALSE."),
+]
+
 BOOL_TEXTS = [".TRUE.", ".FALSE.", ".true.", ".false.", ".True.", "TRUE", "yes"]
 
 
@@ -240,6 +255,19 @@ def parse_args(variant, argv):
             return parser.parse_args(), None
         except SystemExit as e:
             return None, "argparse exit %s: %s" % (e.code, err.getvalue().strip()[-200:])
+
+
+def parser_actions(variant):
+    """option string -> argparse action of the real parser of this command"""
+    from phonopy.cui.phonopy_argparse import get_parser
+
+    with _argv([]), contextlib.redirect_stdout(io.StringIO()):
+        parser, _ = get_parser(**CTRL[variant])
+    out = {}
+    for a in parser._actions:
+        for o in a.option_strings:
+            out[o] = a
+    return out
 
 
 def real_parse(variant, conf_path=None, argv=None):
